@@ -7,8 +7,8 @@ mkdir -p bin evidence replays && go build -o bin/vcheck ./cmd/vcheck || exit 2
 for s in "$@"; do
   for p in C01 C02 C03 C04 C05 C06 C07 C08 C09 C10 C11 C12 C13 C14 C15 C16 C17 C18 C19 C20; do
     t0=$(date +%s)
-    VERIF_SEED=$s bin/vcheck -p $p -tier $TIER > sweep_$p_$s.log 2>&1; rc=$?
+    VERIF_SEED=$s bin/vcheck -p $p -tier $TIER > sweep_${p}_${s}.log 2>&1; rc=$?
     t1=$(date +%s)
-    echo "seed=$s $p exit=$rc wall=$((t1-t0))s $(grep -E '^(VIOLATION|INCONCLUSIVE|KNOWN-FINDING)' sweep_$p_$s.log | cut -c1-200 | head -3 | tr '\n' ';')"
+    echo "seed=$s $p exit=$rc wall=$((t1-t0))s $(grep -E '^(VIOLATION|INCONCLUSIVE|KNOWN-FINDING)' sweep_${p}_${s}.log | cut -c1-200 | head -3 | tr '\n' ';')"
   done
 done
